@@ -751,14 +751,18 @@ def sentinel_suite(ctx, tier, only=None):
             continue
         cases.append({'shape': sh, 'src': program_src(prog), 'expected': expected,
                       'marks': it.marks, 'tags': it.tags})
+    # quick: all six configurations for every third program, -O0 and -O2 -g for the others
+    # (the pyparsing front end dominates the cost and is paid once per configuration)
+    for i, c in enumerate(cases):
+        c['configs'] = CONFIGS if (tier != 'quick' or i % 3 == 0 or len(CONFIGS) < 6) else [CONFIGS[0], CONFIGS[5]]
     raws = vlib.run_impl('layoutfn.run_sentinel_configs',
-                         [{'src': c['src'], 'configs': CONFIGS} for c in cases], timeout=6000)
+                         [{'src': c['src'], 'configs': c['configs']} for c in cases], timeout=40000)
     nrun = 0
     for c, rs in zip(cases, raws):
         if isinstance(rs, dict):
             ctx.broken.append(f'correspondence sentinel: implementation worker failed: {str(rs)[:300]}')
             break
-        for cfg, res in zip(CONFIGS, rs):
+        for cfg, res in zip(c['configs'], rs):
             nrun += 1
             j = judge(c['shape'], None, c['expected'], c['marks'], c['tags'], res, cfg)
             if j is None:
@@ -777,8 +781,8 @@ def sentinel_suite(ctx, tier, only=None):
     ctx.rule.append(
         f'b(T-run): sentinel programs for storage class in {CLASSES} x focus shape in {FOCUS} '
         f'({"1 neighbour pair" if tier == "quick" else "2 neighbour pairs"} each from {NEIGH}; variant B adds reads of '
-        f'never-assigned record fields; + record-parameter family): {len(cases)} programs x 6 configurations '
-        f'(levels 0,1,2 x debug on/off) compiled by the real compiler and run on the real machine; judged against '
+        f'never-assigned record fields; + record-parameter family): {len(cases)} programs, {nrun} compile+run at '
+        f'levels 0,1,2 x debug on/off ({"all six for every third program, -O0 and -O2 -g for the others" if tier == "quick" else "all six configurations each"}), compiled by the real compiler and run on the real machine; judged against '
         f'the reference semantics of tools/props/c04gen.py (every location written with its own sentinel, read back '
         f'forward / reverse / after overwriting, unassigned neighbours, by-reference passing of the first and last '
         f'scalar location through recursion depth 2-4 and a 3-level chain with aliasing parameters, fresh locals per '
